@@ -61,7 +61,7 @@ class Ctx:
                     "distinct_nontrivial": 0, "samples": [], "passes": [], "exhaustive": False}
         self.assumptions = [
             "controller-runtime's in-memory API server (fake client, v0.19) stands for the real API server: no admission, no server-side defaulting, owner garbage collection only as an explicit environment action",
-            "virtual time: advancing the clock is implemented as moving every stored instant back; one unit = 60 s; the in-memory failed-pod back-off stays on the real clock",
+            "virtual time: advancing the clock is implemented as moving every stored instant back; one unit = 60 s; the in-memory failed-pod back-off follows the same virtual clock through the verif hook VerifSetBackOffClock",
             "reconcile requests arrive in any order for the safety clauses and in fair rounds for the convergence clauses",
             "small clusters: at most 6 nodes in histories, 3 templates",
         ]
